@@ -246,12 +246,15 @@ def mutate_umi(r, umi, d):
     return ''.join(u)
 
 
-def unmapped_pair(r, rid, case_id, cell, umi, lib='LIB', mx=MX_NLA, seq_len=30):
+def unmapped_pair(r, rid, case_id, cell, umi, lib='LIB', mx=MX_NLA, seq_len=30, place=None):
+    """place=(tid, pos): both mates are flagged unmapped but keep a contig and coordinate (aligners leave such pairs, e.g. reads hanging over
+    the end of a short contig); idxstats then lists them in the unmapped column of that contig"""
     qn = qname(rid, case_id, cell, umi, mx=mx, lib=lib)
     recs = []
+    tid, pos = place if place is not None else (-1, -1)
     for m in (0, 1):
-        recs.append({'name': qn, 'flag': 1 | 4 | 8 | (64 if m == 0 else 128), 'tid': -1, 'pos': -1, 'mapq': 0, 'cigar': None,
-                     'seq': rand_dna(r, seq_len), 'qual': [20] * seq_len, 'tags': {}, 'next_tid': -1, 'next_pos': -1, 'tlen': 0})
+        recs.append({'name': qn, 'flag': 1 | 4 | 8 | (64 if m == 0 else 128), 'tid': tid, 'pos': pos, 'mapq': 0, 'cigar': None,
+                     'seq': rand_dna(r, seq_len), 'qual': [20] * seq_len, 'tags': {}, 'next_tid': tid, 'next_pos': pos, 'tlen': 0})
     return recs
 
 
